@@ -6,6 +6,7 @@ from ..mirutil import (success_edges, root_place, op_root, deep_root, place_is_f
                        calls_in, result_return_sites, loops_of, iter_source, dominated_by_ok)
 from ..region import dominated_by_edges, bool_place_edges, switch_edges_on_variant
 from .. import anchors as A
+from . import c02
 from .c01 import _sending_functions
 from .c09 import HM_LOOKUP
 
@@ -209,6 +210,8 @@ RULES = [
     ("C10.R3", r3_one_copy_per_selected_peer, "exactly one forwarding action per frame; one send per peer in broadcast"),
     ("C10.R4", r4_non_peers_never_reach_interface, "datagrams are dispatched only to pending handshakes / peers / throw-away responder for handshake messages"),
     ("C10.R5", r5_selection_keys_agree, "source (learned) and destination (looked-up) keys of the Ethernet dissector are built alike"),
+    ("C10.R6", c02.r3_type_byte_after_open, "a datagram becomes a Message (and so payload) only behind decrypt_message, which is the AEAD gate unless plain was negotiated (= C02.R3): a non-peer's datagram never reaches the interface"),
+    ("C10.R7", c02.r2_plain_only_by_consent, "the plain-mode flag that bypasses the gate is set only by a completed negotiation (= C02.R2), never by the mere absence of a key"),
 ]
 
 LEVEL_TEXT = ("Static call-graph reachability and per-path counting on MIR: nothing reachable from the received-payload handler can send; the only "
